@@ -661,6 +661,85 @@ func (f *File) parenSites() []parenSite {
 			}
 		}
 	}
+	out = append(out, f.assocSites()...)
+	return out
+}
+
+// assocSites finds `X op1 Y` at the head of a chain `X op1 Y op2 ...` that the grammar already groups as
+// (X op1 Y): X and Y are single-token operands, op1 is left-associative, what follows binds no tighter and
+// nothing in front of X competes for it.  Writing the parentheses is then meaning-neutral.
+func (f *File) assocSites() []parenSite {
+	fam := func(op string) int {
+		switch op {
+		case "*", "/", "%":
+			return 5
+		case "+", "-":
+			return 4
+		case "&":
+			return 31
+		case "^":
+			return 32
+		case "|":
+			return 33
+		case "&&":
+			return 21
+		case "||":
+			return 22
+		}
+		return 0
+	}
+	operand := func(i int) bool {
+		if i < 0 || i >= len(f.Toks) || f.Info[i].InAttr {
+			return false
+		}
+		t := f.Toks[i]
+		switch {
+		case t.Kind == IntLit || t.Kind == FloatLit:
+			return true
+		case t.Kind == Ident && f.Info[i].Role == RoleUse && !IsPredeclared(t.Text):
+			m := f.Names[t.Text]
+			return !(m[RoleDeclStruct] || m[RoleDeclAlias] || m[RoleDeclFn])
+		}
+		return false
+	}
+	starts := map[string]bool{"(": true, ",": true, "=": true, "return": true, "[": true, "+=": true, "-=": true, "*=": true, "/=": true,
+		"%=": true, "&=": true, "|=": true, "^=": true, "if": true, "while": true}
+	var out []parenSite
+	for i := 0; i+3 < len(f.Toks); i++ {
+		if !operand(i) || !operand(i+2) || f.Toks[i+1].Kind != Punct || f.Toks[i+3].Kind != Punct {
+			continue
+		}
+		if f.Toks[i+1].Tmpl != 0 || f.Toks[i+3].Tmpl != 0 || f.Frozen[i] || f.Frozen[i+3] {
+			continue
+		}
+		op1, op2 := f.Toks[i+1].Text, f.Toks[i+3].Text
+		f1 := fam(op1)
+		if f1 == 0 {
+			continue
+		}
+		// what follows binds no tighter
+		switch f2 := fam(op2); {
+		case op2 == ")" || op2 == ";" || op2 == ",":
+		case f1 == 5 && (f2 == 5 || f2 == 4 || op2 == "==" || op2 == "!="):
+		case f1 == 4 && (f2 == 4 || op2 == "==" || op2 == "!="):
+		case f1 > 20 && f2 == f1:
+		default:
+			continue
+		}
+		// nothing in front of X competes for it
+		prev := f.text(i - 1)
+		ok := starts[prev] && (i < 1 || f.Toks[i-1].Tmpl == 0)
+		if !ok && (f1 == 5 || f1 == 4) && i >= 2 && f.Toks[i-1].Kind == Punct && f.Toks[i-1].Tmpl == 0 {
+			// a binary operator of lower precedence whose left operand is in sight: `w + X * Y`
+			if pf := fam(prev); pf != 0 && pf < f1 && pf != 31 && (operand(i-2) || f.text(i-2) == ")" || f.text(i-2) == "]") {
+				ok = true
+			}
+		}
+		if !ok || !f.RValue(i) {
+			continue
+		}
+		out = append(out, parenSite{i, i + 2, "paren.assoc"})
+	}
 	return out
 }
 
